@@ -1254,9 +1254,9 @@ def run(ctx):
         "(thorough: all orders when there are <=4) through add_term/test/explain calls interleaved with the merges). Every raw explanation "
         "is also checked for closedness (what CongClosureHOL.explain looks up); a raw sequence on which model and code disagree is lifted "
         "into the wrapper and replayed there. Non-trivial = at least two merges; distinct by the operation list.")
-    proofs_ok = ctx.lean_props(["Holpy.C17.Props", "Holpy.C17.PropsPf"], exes=[EXE])
+    proofs_ok = ctx.lean_props(["Holpy.C17.Props", "Holpy.C17.PropsPf", "Holpy.C17.PropsPf2"], exes=[EXE])
     if ctx.tier == "thorough" and proofs_ok:
-        ctx.lean_check_modules(["Holpy.C17.Props", "Holpy.C17.PropsPf"])
+        ctx.lean_check_modules(["Holpy.C17.Props", "Holpy.C17.PropsPf", "Holpy.C17.PropsPf2"])
     ctx.coverage["trusted_base"] += [
         "correspondence harness harness/props/c17.py (generators, flattening of terms, canonical forms)",
         "naive fixpoint congruence closure in the harness (oracle for the implementation's answers)",
@@ -1396,7 +1396,8 @@ MANIFEST = {
             "equation, whenever the core explain returns, get_proofterm returns (no KeyError, the assert b == cur_pos holds, recursion at most "
             "len(proof_forest)+1 deep), the tree checks with conclusion exactly l = r, its hypotheses are hypotheses of given proof terms and its "
             "gaps are merged equations (or gaps of given proof terms). eqpf_checker_sound: a tree that checks derives its conclusion from its "
-            "leaves by reflexivity, symmetry, transitivity and congruence. hol_pts_irrelevant: pt= arguments never influence index / rev_index / "
+            "leaves by reflexivity, symmetry, transitivity and congruence. hol_explain_returns_iff: the wrapper's explain returns a proof term "
+            "exactly when the equality is derivable from the merged term equations (otherwise the core assert fires). hol_pts_irrelevant: pt= arguments never influence index / rev_index / "
             "the core structure. Tie: for every explain of every generated wrapper history the real ProofTerm tree (rule names, shape, leaf "
             "equations) is compared with the model's tree (stream hol-proofterm; merges with assume(s = t), symmetric(assume(t = s)) or no "
             "proof term, mirrored and repeated merges so that pts entries are overwritten or created late).",
